@@ -241,7 +241,12 @@ std::string token_variant(const std::string& kind, long tv) {
                                  t.size() >= 512 ? t.substr(0, t.size() - 512) : t.substr(0, 3)};
         return p[tv % 5];
     }
-    if (kind == "suffix") { const std::string p[] = {t.substr(1), t + "x", "x" + t, t + t, t + std::string(256, 'x'), t.size() >= 256 ? t.substr(256) : t.substr(t.size() - 1)}; return p[tv % 6]; }
+    if (kind == "suffix") {
+        // incl. the token with blanks around it: what is presented is then another string than the token
+        const std::string p[] = {t.substr(1), t + "x", "x" + t, t + t, t + std::string(256, 'x'), t.size() >= 256 ? t.substr(256) : t.substr(t.size() - 1),
+                                 t + " ", " " + t, "\t" + t + " \t"};
+        return p[tv % 9];
+    }
     if (kind == "case") {
         std::string u = t, l = t, sw = t;
         for (auto& ch : u) ch = static_cast<char>(std::toupper(static_cast<unsigned char>(ch)));
